@@ -418,14 +418,54 @@ def r18_9(ctx):
     f = repo.func(f"{MOD}:IndentAndNameChecker.__init__")
     ctx.analysed(f.qual)
     pats: Dict[str, Tuple[str, int]] = {}
-    for n in ast.walk(f.node):
-        if isinstance(n, ast.Assign) and isinstance(n.value, ast.Call) and ast.unparse(n.value.func) == "re.compile" and n.value.args:
-            t = _fold_str(f.node, n.value.args[0])
-            flags = re.X if any("re.X" in ast.unparse(a) for a in n.value.args[1:]) else 0
+    mod_tree = f.module.tree
+
+    def definition(e: ast.AST, depth: int = 6) -> Optional[ast.AST]:
+        """what a name / `self.x` of the constructor stands for: its single assignment in __init__, else at module level;
+        `dict(T)` is T"""
+        if depth <= 0:
+            return None
+        if isinstance(e, ast.Call) and isinstance(e.func, ast.Name) and e.func.id == "dict" and len(e.args) == 1 and not e.keywords:
+            return definition(e.args[0], depth - 1)
+        if isinstance(e, (ast.Name, ast.Attribute)):
+            want = ast.unparse(e)
+            for scope in (f.node, mod_tree):
+                body = ast.walk(scope) if scope is f.node else scope.body
+                defs = [n.value for n in body if isinstance(n, ast.Assign) and len(n.targets) == 1 and ast.unparse(n.targets[0]) == want]
+                defs += [n.value for n in body if isinstance(n, ast.AnnAssign) and n.value is not None and ast.unparse(n.target) == want]
+                if len(defs) == 1:
+                    return definition(defs[0], depth - 1)
+                if defs:
+                    return None
+            return None
+        return e
+
+    class _Scope:  # _fold_str looks names up in one tree: give it the constructor first, then the module
+        pass
+
+    def fold(e):
+        t = _fold_str(f.node, e)
+        return t if t is not None else _fold_str(mod_tree, e)
+
+    def pattern_of(e: ast.AST) -> Optional[Tuple[str, int]]:
+        d = definition(e)
+        if isinstance(d, ast.Call) and ast.unparse(d.func) == "re.compile" and d.args:
+            t = fold(d.args[0])
             if t is not None:
-                pats[ast.unparse(n.targets[0]).replace("self.", "")] = (t, flags)
+                return t, (re.X if any("re.X" in ast.unparse(a) or "re.VERBOSE" in ast.unparse(a) for a in d.args[1:]) else 0)
+        return None
+    table = definition(ast.parse("self.kw_to_regex", mode="eval").body)
+    if isinstance(table, ast.Dict):
+        for k, v in zip(table.keys, table.values):
+            if isinstance(k, ast.Constant) and k.value == "default":
+                pt = pattern_of(v)
+                if pt:
+                    pats["reg_default"] = pt
+    pt = pattern_of(ast.parse("self.reg_symbol", mode="eval").body)
+    if pt:
+        pats["reg_symbol"] = pt
     if "reg_default" not in pats or "reg_symbol" not in pats:
-        raise AnchorError(f"IndentAndNameChecker.__init__: reg_default / reg_symbol not foldable ({sorted(pats)})")
+        raise AnchorError(f"IndentAndNameChecker.__init__: the pattern of `default` lines (kw_to_regex['default']) / reg_symbol not foldable ({sorted(pats)})")
     try:
         rd = re.compile(*pats["reg_default"])
         rs = re.compile(*pats["reg_symbol"])
